@@ -235,13 +235,22 @@ def restable_tables(prog):
             callee = prog.resolve_call(f, s.value)
             if callee is not None and callee.key == AA + ":buildTable":
                 src_ok = s.targets[0].id if isinstance(s.targets[0], ast.Name) else False
-        if isinstance(s, ast.For):
+        if isinstance(s, ast.For) and isinstance(s.iter, ast.Name) and src_ok and s.iter.id == src_ok:
             loop = s
     if loop is None or not src_ok or not (isinstance(loop.iter, ast.Name) and loop.iter.id == src_ok):
         raise Undecided("ResTable.__init__ does not loop over data.aminoacids.buildTable()", f.loc())
     rv = loop.target.id if isinstance(loop.target, ast.Name) else None
     ctor = store = None
+    unpack = {}          # local name -> column, from `(a, b, ...) = row` or `for (a, b, ...) in rows`
+    if isinstance(loop.target, (ast.Tuple, ast.List)) and all(isinstance(e, ast.Name) for e in loop.target.elts):
+        unpack = {e.id: i for i, e in enumerate(loop.target.elts)}
     for st in loop.body:
+        if isinstance(st, ast.Assign) and len(st.targets) == 1 and isinstance(st.targets[0], (ast.Tuple, ast.List)) and isinstance(st.value, ast.Name) \
+                and st.value.id == rv and all(isinstance(e, ast.Name) for e in st.targets[0].elts):
+            if unpack:
+                raise Undecided("row unpacked twice in ResTable.__init__", f.loc(st))
+            unpack = {e.id: i for i, e in enumerate(st.targets[0].elts)}
+            continue
         if isinstance(st, ast.Assign) and isinstance(st.value, ast.Call) \
                 and prog.class_of_ctor(f.mod, st.value) == "Residue":
             ctor = st
@@ -255,10 +264,13 @@ def restable_tables(prog):
     resname = ctor.targets[0].id
     # bind ctor args -> Residue params -> column index
     p2col = {}
+    rebound = {n.id for st in loop.body for n in ast.walk(st) if isinstance(n, ast.Name) and isinstance(n.ctx, ast.Store) and n.id in unpack}
+    if unpack and len(rebound) != len(unpack) and not isinstance(loop.target, (ast.Tuple, ast.List)):
+        raise Undecided("unpacked row names in an unexpected form", f.loc(loop))
     for i, a in enumerate(ctor.value.args):
-        p2col[params[i]] = _col(a, rv, f)
+        p2col[params[i]] = _col(a, rv, f, unpack)
     for kw in ctor.value.keywords:
-        p2col[kw.arg] = _col(kw.value, rv, f)
+        p2col[kw.arg] = _col(kw.value, rv, f, unpack)
     if set(p2col) != set(params):
         raise Undecided("Residue(...) call does not bind every parameter", f.loc(ctor))
     # key of residue_table
@@ -269,6 +281,11 @@ def restable_tables(prog):
     keyfield = k.attr
     keycol = p2col[fields[keyfield]]
     out = {"_keycol": keycol, "_rows": rows, "_colsrc": colsrc, "_p2col": p2col, "_fields": fields}
+    # statements of the constructor besides `self.residue_table = {}`, the buildTable() call and the loop
+    out["_extra_stmts"] = [st for st in f.body() if st is not loop
+                           and not (isinstance(st, ast.Assign) and isinstance(st.value, ast.Call) and prog.resolve_call(f, st.value) is not None
+                                    and prog.resolve_call(f, st.value).key == AA + ":buildTable")
+                           and not (isinstance(st, ast.Assign) and any(is_self_attr(t, "residue_table") for t in st.targets))]
     for fld, src in fields.items():
         if isinstance(src, dict):
             out[fld] = {mk: {r[keycol]: r[p2col[p]] for r in rows} for mk, p in src.items()}
@@ -277,7 +294,9 @@ def restable_tables(prog):
     return out
 
 
-def _col(node, rv, f):
+def _col(node, rv, f, unpack=None):
+    if unpack and isinstance(node, ast.Name) and node.id in unpack:
+        return unpack[node.id]
     if isinstance(node, ast.Subscript) and isinstance(node.value, ast.Name) and node.value.id == rv \
             and isinstance(node.slice, ast.Constant) and isinstance(node.slice.value, int):
         return node.slice.value
